@@ -24,11 +24,12 @@ Builtin == {"Eq", "Ne", "Lt", "Gt", "Le", "Ge"}
 OpText(o) ==
   CASE o = "Eq" -> "=" [] o = "Ne" -> "!=" [] o = "Lt" -> "<" [] o = "Gt" -> ">"
     [] o = "Le" -> "<=" [] o = "Ge" -> ">=" [] o \in {"op0", "op9"} -> "<invalid_operator>"
-    [] o = "user" -> "~=" [] o = "emptyctx" -> "%" [] OTHER -> ""
+    [] o \in {"user", "userB"} -> "~=" [] o = "eqB" -> "=" [] o = "emptyctx" -> "%" [] OTHER -> ""
 
 OpCtx(o) ==
   CASE o \in Builtin \cup {"op0", "op9"} -> "comparison"
     [] o \in {"user", "emptytext"} -> "user"
+    [] o \in {"userB", "eqB"} -> "other"           \* user operators with the text of another operator (~= , =) and a context of their own
     [] OTHER -> ""
 
 \* SetOperator stores an operator iff it is non-nil with non-empty text and context
